@@ -163,7 +163,105 @@ func TestVerif_C03(t *testing.T) {
 			return true
 		})
 	}
+	c03macro(r)
 	r.Eval(r.R.Traces)
 	r.Sample(map[string]interface{}{"ops": []string{"put(a,v1)", "del(a)", "put(ab,v22)", "put(a,v22)"}, "final": "a=v22,ab=v22"})
 	r.Need(len(states) >= 100 || r.R.NShards > 1, "only %d final maps reached", len(states))
+}
+
+
+// c03macro: second phase with MACRO operations that cross the in-memory
+// table's capacity thresholds (initial 4 KiB value buffer, 128 entries):
+// bursts of overwrites with 64-byte values, a fill with 200 distinct keys and
+// a 5000-byte value, interleaved with plain puts and deletes.  Every sequence
+// up to the depth is run; same oracle (hash and write set are functions of
+// the final content).
+func c03macro(r *vh.Run) {
+	type mop struct {
+		name string
+		do   func(db *OverlayDB, ref map[string]string)
+	}
+	long := func(tag byte, n int) string {
+		b := make([]byte, n)
+		for i := range b {
+			b[i] = tag
+		}
+		return string(b)
+	}
+	put := func(k, v string) mop {
+		return mop{"put(" + k + ",len" + fmt.Sprint(len(v)) + ")", func(db *OverlayDB, ref map[string]string) { db.Put([]byte(k), []byte(v)); ref[k] = v }}
+	}
+	del := func(k string) mop {
+		return mop{"del(" + k + ")", func(db *OverlayDB, ref map[string]string) { db.Delete([]byte(k)); ref[k] = "" }}
+	}
+	churn := func(k string) mop {
+		return mop{"churn(" + k + ")x100", func(db *OverlayDB, ref map[string]string) {
+			for i := 0; i < 100; i++ {
+				v := long(byte('A'+i%2), 64)
+				db.Put([]byte(k), []byte(v))
+				ref[k] = v
+			}
+		}}
+	}
+	fill := mop{"fill(200 keys)", func(db *OverlayDB, ref map[string]string) {
+		for i := 0; i < 200; i++ {
+			k := fmt.Sprintf("f%03d", i)
+			db.Put([]byte(k), []byte("x"))
+			ref[k] = "x"
+		}
+	}}
+	ops := []mop{put("a", "v1"), del("a"), put("b", "v2"), del("b"), del("abc"), churn("a"), churn("ab"), fill, put("abc", long('Z', 5000)), put("ab", long('Y', 64))}
+	depth := r.Pick(4, 5)
+	states := map[string]string{}
+	radix := make([]int, depth)
+	idx := 0
+	for d := 1; d <= depth; d++ {
+		radix = radix[:d]
+		for i := range radix {
+			radix[i] = len(ops)
+		}
+		vh.Odometer(radix, func(dg []int) bool {
+			idx++
+			if !r.Mine(idx) {
+				return true
+			}
+			if idx&0x3f == 0 && r.Expired() {
+				return false
+			}
+			db := NewOverlayDB(c03empty)
+			ref := map[string]string{}
+			names := make([]string, len(dg))
+			nops := 0
+			for i, x := range dg {
+				ops[x].do(db, ref)
+				names[i] = ops[x].name
+				nops++
+			}
+			h := db.ChangeHash()
+			var l []string
+			db.GetWriteSet().ForEach(func(key, val []byte) { l = append(l, string(key)+"="+string(val)) })
+			refHash, refListing := c03expect(ref)
+			r.Trace(1)
+			r.Trans(int64(nops))
+			cs := map[string]interface{}{"macro_ops": names}
+			if fmt.Sprintf("%x", h[:]) != refHash {
+				r.Violationf("macro:hash-differs-from-final-content", cs, "ops %v: ChangeHash differs from the hash of the final content (%d entries)", names, len(ref))
+			} else if strings.Join(l, ",") != refListing {
+				r.Violationf("macro:writeset-differs-from-final-content", cs, "ops %v: write set listing differs from the final content (%d vs %d entries)", names, len(l), len(ref))
+			}
+			key := c03sha(refListing)
+			if prev, ok := states[key]; ok && prev != fmt.Sprintf("%x", h[:]) {
+				r.Violationf("macro:paths-disagree", cs, "ops %v reach the same content as another path with a different hash", names)
+			}
+			states[key] = fmt.Sprintf("%x", h[:])
+			r.StateKey("macro:" + key)
+			r.Class("macro:entries>128=" + fmt.Sprint(len(ref) > 128))
+			return true
+		})
+	}
+}
+
+func c03sha(s string) string {
+	h := sha256.Sum256([]byte(s))
+	return fmt.Sprintf("%x", h[:8])
 }
